@@ -245,6 +245,32 @@ class Env:
         return False
 
 
+class GenList:
+    """Eagerly evaluated generator (generator function call or generator expression).  Sound for the code under contract
+    because its generator bodies have no side effects that interleave with their consumers (stated assumption)."""
+
+    def __init__(self, items):
+        self.items = list(items)
+
+    def __iter__(self):
+        return iter(self.items)
+
+    def kvc_isinstance(self, interp, cls):
+        import types
+        classes = cls if isinstance(cls, tuple) else (cls,)
+        return any(c is types.GeneratorType or getattr(c, '__name__', '') in ('GeneratorType', 'Iterable', 'Iterator') for c in classes)
+
+    def __repr__(self):
+        return f'GenList({self.items!r})'
+
+
+def _has_yield(node):
+    for n in ast.walk(node):
+        if isinstance(n, (ast.Yield, ast.YieldFrom)):
+            return True
+    return False
+
+
 class Closure:
     """A function (def or lambda) of the code under verification, closed over its environment."""
 
@@ -379,10 +405,19 @@ class Interp:
         try:
             if isinstance(node, ast.Lambda):
                 return self.eval(node.body, env)
+            is_gen = getattr(node, 'kvc_is_gen', None)
+            if is_gen is None:
+                is_gen = node.kvc_is_gen = any(_has_yield(st) for st in node.body if not isinstance(st, (ast.FunctionDef, ast.Lambda)))
+            if is_gen:
+                env.vars['__yields__'] = []
             try:
                 self.exec_block(node.body, env, clo.qualname)
             except _Return as r:
+                if is_gen:
+                    return GenList(env.vars['__yields__'])
                 return r.value
+            if is_gen:
+                return GenList(env.vars['__yields__'])
             return None
         finally:
             self.depth -= 1
@@ -736,6 +771,22 @@ class Interp:
     def ex_Constant(self, e, env):
         return e.value
 
+    def _yield_target(self, env):
+        en = env
+        while en is not None:
+            if '__yields__' in en.vars:
+                return en.vars['__yields__']
+            en = en.parent
+        raise OutOfSubset('yield outside a generator function')
+
+    def ex_Yield(self, e, env):
+        self._yield_target(env).append(self.eval(e.value, env) if e.value is not None else None)
+        return None
+
+    def ex_YieldFrom(self, e, env):
+        self._yield_target(env).extend(self.iterate(self.eval(e.value, env)))
+        return None
+
     def ex_Name(self, e, env):
         return env.lookup(e.id)
 
@@ -1081,7 +1132,7 @@ class Interp:
             self._comp(e, env, lambda ce: out.append(self.eval(e.elt, ce)))
         except _SymbolicComprehension as s:
             return self._sym_comp(e, env, s.it, 'gen')
-        return out
+        return GenList(out)
 
     def ex_SetComp(self, e, env):
         out = []
